@@ -206,6 +206,71 @@ impl grenad::MergeFunction for Mf {
 
 // ---------------------------------------------------------------- interpreter
 
+/// Logical cursor position of the Rust-side specification.
+#[derive(Clone, Copy, Debug, PartialEq)]
+enum SPos {
+    Fresh,
+    At(usize),
+    Lost,
+}
+
+#[derive(Clone, Debug)]
+enum IterQ {
+    Range(Bound<Vec<u8>>, Bound<Vec<u8>>, bool),
+    Prefix(Vec<u8>, bool),
+}
+
+/// The specification cursor over a sorted entry list, written independently of the Lean one:
+/// `None` = the property leaves the result open.
+fn spec_step(es: &[Entry], pos: SPos, op: &str, q: &[u8]) -> (SPos, Option<Option<Entry>>) {
+    let land = |i: usize| match es.get(i) {
+        Some(e) => (SPos::At(i), Some(Some(e.clone()))),
+        None => (SPos::Lost, Some(None)),
+    };
+    let miss = (SPos::Lost, Some(None));
+    match (op, pos) {
+        ("first", _) => land(0),
+        ("last", _) => if es.is_empty() { miss } else { land(es.len() - 1) },
+        ("next", SPos::Fresh) => land(0),
+        ("next", SPos::At(i)) => land(i + 1),
+        ("next", SPos::Lost) => (SPos::Lost, None),
+        ("prev", SPos::Fresh) => if es.is_empty() { miss } else { land(es.len() - 1) },
+        ("prev", SPos::At(i)) => if i == 0 { miss } else { land(i - 1) },
+        ("prev", SPos::Lost) => (SPos::Lost, None),
+        ("ge", _) => match es.iter().position(|e| e.0.as_slice() >= q) {
+            Some(i) => land(i),
+            None => miss,
+        },
+        ("le", _) => match es.iter().rposition(|e| e.0.as_slice() <= q) {
+            Some(i) => land(i),
+            None => miss,
+        },
+        ("eq", _) => match es.iter().position(|e| e.0.as_slice() == q) {
+            Some(i) => land(i),
+            None => miss,
+        },
+        ("reset", _) => (SPos::Fresh, Some(None)),
+        ("current", SPos::Fresh) => (SPos::Fresh, Some(None)),
+        ("current", SPos::At(i)) => (SPos::At(i), Some(es.get(i).cloned())),
+        ("current", SPos::Lost) => (SPos::Lost, None),
+        _ => (pos, None),
+    }
+}
+
+fn in_bounds(lo: &Bound<Vec<u8>>, hi: &Bound<Vec<u8>>, k: &[u8]) -> bool {
+    let a = match lo {
+        Bound::Unbounded => true,
+        Bound::Included(s) => k >= s.as_slice(),
+        Bound::Excluded(s) => k > s.as_slice(),
+    };
+    let b = match hi {
+        Bound::Unbounded => true,
+        Bound::Included(e) => k <= e.as_slice(),
+        Bound::Excluded(e) => k < e.as_slice(),
+    };
+    a && b
+}
+
 enum IterBox {
     RF(RangeIter<Src>),
     RR(RevRangeIter<Src>),
@@ -336,6 +401,10 @@ pub struct Interp {
     smf: Option<Mf>,
     sctl: Rc<RefCell<ChunkCtl>>,
     alloc_live: HashMap<usize, (usize, usize)>,
+    /// independent Rust-side specification state (second implementation of the L0 spec)
+    spos: HashMap<usize, SPos>,
+    iter_q: HashMap<usize, IterQ>,
+    sorter_inserted: Vec<Entry>,
     pub oracle_failures: u64,
     pub stats: BTreeMap<String, u64>,
 }
@@ -384,6 +453,9 @@ impl Interp {
             smf: None,
             sctl: Rc::new(RefCell::new(ChunkCtl::default())),
             alloc_live: HashMap::new(),
+            spos: HashMap::new(),
+            iter_q: HashMap::new(),
+            sorter_inserted: Vec::new(),
             oracle_failures: 0,
             stats: BTreeMap::new(),
         }
@@ -851,6 +923,7 @@ impl Interp {
                 match self.open_cursor() {
                     Ok(c) => {
                         self.cursors.insert(i, c);
+                        self.spos.insert(i, SPos::Fresh);
                         self.emit0(line);
                     }
                     Err(e) => self.emit(line, e, "-".into()),
@@ -862,6 +935,8 @@ impl Interp {
                 if let Some(c) = self.cursors.get(&i) {
                     let c2 = c.clone();
                     self.cursors.insert(j, c2);
+                    let p = self.spos.get(&i).copied().unwrap_or(SPos::Lost);
+                    self.spos.insert(j, p);
                 }
                 self.emit0(line);
             }
@@ -880,6 +955,7 @@ impl Interp {
                 });
                 if let Ok(it) = it {
                     self.iters.insert(i, it);
+                    self.iter_q.insert(i, IterQ::Range(parse_bound(toks[2]).unwrap_or(Bound::Unbounded), parse_bound(toks[3]).unwrap_or(Bound::Unbounded), toks[4] == "rev"));
                 }
                 self.emit0(line);
             }
@@ -896,6 +972,7 @@ impl Interp {
                 });
                 if let Ok(it) = it {
                     self.iters.insert(i, it);
+                    self.iter_q.insert(i, IterQ::Prefix(unhex(toks[2]).unwrap_or_default(), toks[3] == "rev"));
                 }
                 self.emit0(line);
             }
@@ -930,7 +1007,29 @@ impl Interp {
                             Ok::<_, String>(acc)
                         }));
                         match r {
-                            Ok(Ok(l)) => format!("ok {}", fmt_list(&l)),
+                            Ok(Ok(l)) => {
+                                let want: Option<Vec<Entry>> = self.iter_q.get(&i).map(|q| match q {
+                                    IterQ::Range(lo, hi, rev) => {
+                                        let mut v: Vec<Entry> = self.es.iter().filter(|e| in_bounds(lo, hi, &e.0)).cloned().collect();
+                                        if *rev { v.reverse(); }
+                                        v
+                                    }
+                                    IterQ::Prefix(p, rev) => {
+                                        let mut v: Vec<Entry> = self.es.iter().filter(|e| e.0.starts_with(p)).cloned().collect();
+                                        if *rev { v.reverse(); }
+                                        v
+                                    }
+                                });
+                                // a drained iterator is consumed: only its first `itall` is specified
+                                self.iter_q.remove(&i);
+                                match want {
+                                    Some(w) if w != l => {
+                                        self.oracle_failures += 1;
+                                        format!("ORACLE-FAIL iterator_yielded_{}_entries_specification_{}", l.len(), w.len())
+                                    }
+                                    _ => format!("ok {}", fmt_list(&l)),
+                                }
+                            }
                             Ok(Err(e)) => e,
                             Err(p) => format!("panic {}", panic_name(p)),
                         }
@@ -1033,7 +1132,23 @@ impl Interp {
             }
             None => "none".into(),
         };
+        // Rust-side specification (independent of gmodel's): compared whenever it is determined
+        let spec_bad = if let Ok(Ok(e)) = &r {
+            let p = self.spos.get(&i).copied().unwrap_or(SPos::Lost);
+            let (p2, want) = spec_step(&self.es, p, op, &q);
+            self.spos.insert(i, p2);
+            match want {
+                Some(w) if &w != e => Some(format!("{}_returned_{}_specification_says_{}", op, fmt_opt(e.as_ref().map(|(k, v)| (&k[..], &v[..]))).replace(' ', "_"), fmt_opt(w.as_ref().map(|(k, v)| (&k[..], &v[..]))).replace(' ', "_"))),
+                _ => None,
+            }
+        } else {
+            None
+        };
         let (f1, dead) = match r {
+            Ok(Ok(_)) if spec_bad.is_some() => {
+                self.oracle_failures += 1;
+                (format!("ORACLE-FAIL {}", spec_bad.unwrap()), false)
+            }
             Ok(Ok(e)) => (fmt_opt(e.as_ref().map(|(k, v)| (&k[..], &v[..]))), false),
             Ok(Err(e)) => (e, true),
             Err(p) => (format!("panic {}", panic_name(p)), true),
@@ -1114,6 +1229,22 @@ impl Interp {
             Err(p) => (format!("panic {}", panic_name(p)), "-".into()),
         };
         drop(c);
+        // Rust-side specification of the merge (independent of gmodel's): grouped union, values in
+        // the order their sources were added, one merge per key
+        if !impl_only && fail_at == 0 && f1.starts_with("ok ") {
+            let mut m: std::collections::BTreeMap<Vec<u8>, Vec<Vec<u8>>> = Default::default();
+            for (es, _) in &self.msrcs {
+                for (k, v) in es {
+                    m.entry(k.clone()).or_default().push(v.clone());
+                }
+            }
+            let want: Vec<Entry> = m.into_iter().map(|(k, vs)| { let v = apply_mf(toks[1], &vs); (k, v) }).collect();
+            if f1 != format!("ok {}", fmt_list(&want)) {
+                self.oracle_failures += 1;
+                self.emit(line, format!("ORACLE-FAIL merge_output_differs_from_the_grouped_union_({}_keys_expected)", want.len()), f2);
+                return;
+            }
+        }
         if impl_only {
             // impl-only oracle (C12): if the armed fault was reached the call must return that
             // I/O error; if it was never reached the result must be the fault-free one
@@ -1197,6 +1328,7 @@ impl Interp {
         self.smf = Some(mf.clone());
         // drop any previous sorter first and forget the allocation events of earlier scenarios
         self.sorter = None;
+        self.sorter_inserted.clear();
         grenad::verif::take_alloc_trace();
         self.alloc_live.clear();
         {
@@ -1249,6 +1381,7 @@ impl Interp {
             Ok(Ok(())) => {
                 let st = self.sorter_state(&s);
                 self.sorter = Some(s);
+                self.sorter_inserted.push((k.clone(), v.clone()));
                 st
             }
             Ok(Err(e)) => {
@@ -1326,6 +1459,24 @@ impl Interp {
             Err(p) => (format!("panic {}", panic_name(p)), "-".into()),
         };
         drop(calls);
+        // Rust-side specification of the sorter output: group all inserts by key, values in insertion
+        // order (order-insensitive merge functions only when the sort is unstable or parallel)
+        let order_free = mf.kind == "sum" || mf.kind == "bag";
+        let f1 = if !impl_only && mf.fail_at == 0 && f1.starts_with("ok ") && (order_free || (self.scfg.stable && !self.scfg.par) || self.scfg.stable) {
+            let mut m: std::collections::BTreeMap<Vec<u8>, Vec<Vec<u8>>> = Default::default();
+            for (k, v) in &self.sorter_inserted {
+                m.entry(k.clone()).or_default().push(v.clone());
+            }
+            let want: Vec<Entry> = m.into_iter().map(|(k, vs)| { let v = apply_mf(&mf.kind, &vs); (k, v) }).collect();
+            if f1 != format!("ok {}", fmt_list(&want)) && (order_free || mf.kind == "first" || mf.kind == "concat") && !(mf.kind == "concat" && !self.scfg.stable) {
+                self.oracle_failures += 1;
+                format!("ORACLE-FAIL sorter_output_differs_from_sort_and_merge_of_all_inserts_({}_keys_expected)", want.len())
+            } else {
+                f1
+            }
+        } else {
+            f1
+        };
         let f1 = if impl_only { self.fault_oracle(f1, ops_before) } else { f1 };
         let f1 = match alloc_bad {
             Some(msg) => {
